@@ -2,7 +2,10 @@
 //
 // Scripts, the line protocol of driverC01/driverC04, and the translation between the flat message
 // of the Lean model (ScVerif/C01/Flat.lean) and internal/testproto.TestAllTypes restricted to the
-// fields default_int32 (a), default_string (s), optional_int32 (c).
+// fields default_int32 (a), default_string (s), optional_int32 (c), default_foreign_message (f),
+// repeated_int32 (r) - and, for messages written with seven parts, traits.OpenClosePosition restricted to
+// open_percent (p) and open_percent_tween (t, of which progress is modelled): two fields of one level
+// where the name of one is a textual prefix of the name of the other.
 package main
 
 import (
@@ -18,10 +21,16 @@ import (
 	"google.golang.org/protobuf/reflect/protoreflect"
 	"google.golang.org/protobuf/types/known/fieldmaskpb"
 
+	"github.com/smart-core-os/sc-api/go/traits"
+	scTypes "github.com/smart-core-os/sc-api/go/types"
 	"github.com/smart-core-os/sc-golang/internal/testproto"
 )
 
 type T = testproto.TestAllTypes
+
+// P is the second message type: a script uses one of the two types (its messages all have seven parts,
+// the first five at their defaults, or none has).
+type P = traits.OpenClosePosition
 
 // Cfg describes how the resource under test is constructed.
 type Cfg struct {
@@ -40,6 +49,9 @@ type Op struct {
 	ID   string   `json:"id"`
 	Msg  string   `json:"msg,omitempty"`
 	Opts []string `json:"opts,omitempty"`
+	// Off: in a script with Share, the call's options are the view arr[Off : Off+len(Opts)] of the caller's
+	// one option array (0: a view from the start)
+	Off int `json:"off,omitempty"`
 }
 
 type Script struct {
@@ -120,10 +132,80 @@ func (o Op) has(k string) bool { _, ok := o.opt(k); return ok }
 
 const fieldA, fieldS, fieldC, fieldF, fieldR = "default_int32", "default_string", "optional_int32", "default_foreign_message", "repeated_int32"
 
-var letterPath = map[string]string{"a": fieldA, "s": fieldS, "c": fieldC, "f": fieldF, "r": fieldR, "x": "no_such_field",
-	"fc": fieldF + ".c", "fd": fieldF + ".d", "fx": fieldF + ".no_such_field"}
+const fieldP, fieldTw = "open_percent", "open_percent_tween"
 
-func parseMsg(s string) *T {
+var letterPath = map[string]string{"a": fieldA, "s": fieldS, "c": fieldC, "f": fieldF, "r": fieldR, "x": "no_such_field",
+	"fc": fieldF + ".c", "fd": fieldF + ".d", "fx": fieldF + ".no_such_field",
+	"p": fieldP, "t": fieldTw, "tp": fieldTw + ".progress"}
+
+// isPosMsg: the message text denotes an OpenClosePosition (seven parts)
+func isPosMsg(s string) bool { return strings.Count(s, "/") == 6 }
+
+// parseMsg builds the real message: a TestAllTypes for three or five parts, an OpenClosePosition for seven.
+func parseMsg(s string) proto.Message {
+	if isPosMsg(s) {
+		return parsePos(s)
+	}
+	return parseT(s)
+}
+
+func parsePos(s string) *P {
+	p := strings.Split(s, "/")
+	if len(p) != 7 || p[0] != "0" || p[1] != "" || p[2] != "-" || p[3] != "-" || p[4] != "-" {
+		panic("bad position msg " + s)
+	}
+	op, err := strconv.ParseInt(p[5], 10, 32)
+	if err != nil {
+		panic("bad position msg " + s)
+	}
+	m := &P{OpenPercent: float32(op)}
+	if p[6] != "-" {
+		g, err := strconv.ParseInt(p[6], 10, 32)
+		if err != nil {
+			panic("bad position msg " + s)
+		}
+		m.OpenPercentTween = &scTypes.Tween{Progress: float32(g)}
+	}
+	return m
+}
+
+func showFloat(f float32) string {
+	if f != float32(int(f)) {
+		return fmt.Sprintf("!frac:%v", f)
+	}
+	return strconv.Itoa(int(f))
+}
+
+// showPos: the canonical text of an OpenClosePosition (a zero message reads like the zero TestAllTypes)
+func showPos(m *P) string {
+	if m == nil {
+		return "nil"
+	}
+	s := "0//-"
+	if m.OpenPercent != 0 || m.OpenPercentTween != nil {
+		t := "-"
+		if tw := m.OpenPercentTween; tw != nil {
+			t = showFloat(tw.Progress)
+			if tw.TotalDuration != nil || len(tw.ProtoReflect().GetUnknown()) > 0 {
+				t += "!extra"
+			}
+		}
+		s += "/-/-/" + showFloat(m.OpenPercent) + "/" + t
+	}
+	extra := false
+	m.ProtoReflect().Range(func(fd protoreflect.FieldDescriptor, _ protoreflect.Value) bool {
+		if n := string(fd.Name()); n != fieldP && n != fieldTw {
+			extra = true
+		}
+		return true
+	})
+	if extra {
+		s += "!extra"
+	}
+	return s
+}
+
+func parseT(s string) *T {
 	p := strings.Split(s, "/")
 	if len(p) != 3 && len(p) != 5 {
 		panic("bad msg " + s)
@@ -168,6 +250,9 @@ func parseMsg(s string) *T {
 func showMsg(pm proto.Message) string {
 	if pm == nil {
 		return "nil"
+	}
+	if pos, ok := pm.(*P); ok {
+		return showPos(pos)
 	}
 	m, ok := pm.(*T)
 	if !ok {
@@ -325,7 +410,7 @@ func namedCheck(n string) func(old proto.Message) error {
 		}
 	case "nonNil":
 		return func(old proto.Message) error {
-			if m, ok := old.(*T); ok && m != nil {
+			if old != nil && old.ProtoReflect().IsValid() { // a message (of either type), not a nil pointer
 				return nil
 			}
 			return status.Error(codes.NotFound, "no old value")
